@@ -399,11 +399,13 @@ def in_type_change_class(body, patch):
     return any(k in body and isinstance(v, dict) and in_type_change_class(body[k], v) for k, v in patch.items())
 
 
-def in_library_diff_class(body, target):
+def in_library_diff_class(body, target, also=()):
     """F-C18-3's class: the third-party diff is itself wrong for (body -> the CORRECT target): jsonpatch.from_diff
-    raises, or its ops -- applied by the independent RFC 6902 interpreter -- do not yield that target exactly."""
+    raises, or its ops -- applied by the independent RFC 6902 interpreter -- do not yield that target exactly.
+    `also`: further targets the library may have been given (the merged body as kopf builds it internally, which
+    may differ from the reference result in the presence of empty mappings only)."""
     import jsonpatch
-    for t in (target, _prune(target)):
+    for t in (target, _prune(target)) + tuple(also):
         try:
             ops = jsonpatch.JsonPatch.from_diff(_fresh(body), _fresh(t)).patch
             if _canon(apply6902(body, ops)) != _canon(t):
@@ -585,7 +587,18 @@ def A5(b):
             why = 'the patched object differs from merge+fns'
         excuse = None
         if why is not None:         # classify a failure: the known classes are decided on the INPUTS, not on the failure
-            excuse = 'F-C18-2' if known else 'F-C18-3' if in_library_diff_class(body0, expected) else None
+            internal = ()
+            try:        # what kopf hands to the library: the real merge (Patch._apply_patch) + fns on a copy of the body
+                to_be = copy.deepcopy(body0)
+                pp = patches.Patch(patch0, fns=fns)
+                pp._apply_patch(to_be, (), dict(pp))
+                for fn in fns:
+                    fn(to_be)
+                if similar(to_be, expected):      # only if kopf's own part is right: then a wrong result is the library's
+                    internal = (to_be,)
+            except Exception:
+                pass
+            excuse = 'F-C18-3' if in_library_diff_class(body0, expected, internal) else 'F-C18-2' if known else None
         b.check(clause, why is None, excuse=excuse,
                 witness=lambda: dict(body=body0, merge_patch=patch0, fns=[getattr(f, '__name__', repr(f)) for f in fns],
                                      json_patch=ops, expected=expected, actual=actual, why=why))
